@@ -12,7 +12,7 @@ import genlib as G
 import c04_frontier as C4
 
 F = "routee-compass/src/plugin/input/default/edge_rtree/edge_rtree_input_plugin.rs"
-OBLIGATIONS = ["search", "within_tolerance", "validate_tolerance"]
+OBLIGATIONS = ["search", "within_tolerance", "validate_tolerance", "distance_2"]
 MUST_FAIL = ["vacuity_probe"]
 
 SHIMS = """
@@ -82,6 +82,32 @@ pub open spec fn admissible(rc: &Option<HashSet<u8>>, rl: &Option<Vec<u8>>, vr: 
 """
 
 
+F32 = """
+// ---- A-REAL for the f32 arithmetic of EdgeRtreeRecord::distance_2 (assumed) ----
+pub uninterp spec fn f32_real(x: f32) -> real;
+pub axiom fn areal32_obeys() ensures <f32 as MulSpec<f32>>::obeys_mul_spec(), <f32 as AddSpec<f32>>::obeys_add_spec(), <f32 as SubSpec<f32>>::obeys_sub_spec();
+pub broadcast axiom fn areal32_mul_req(a: f32, b: f32) ensures #[trigger] a.mul_req(b);
+pub broadcast axiom fn areal32_add_req(a: f32, b: f32) ensures #[trigger] a.add_req(b);
+pub broadcast axiom fn areal32_sub_req(a: f32, b: f32) ensures #[trigger] a.sub_req(b);
+pub broadcast axiom fn areal32_mul(a: f32, b: f32) ensures f32_real(#[trigger] a.mul_spec(b)) == f32_real(a) * f32_real(b);
+pub broadcast axiom fn areal32_add(a: f32, b: f32) ensures f32_real(#[trigger] a.add_spec(b)) == f32_real(a) + f32_real(b);
+pub broadcast axiom fn areal32_sub(a: f32, b: f32) ensures f32_real(#[trigger] a.sub_spec(b)) == f32_real(a) - f32_real(b);
+pub broadcast group areal32 { areal32_mul_req, areal32_add_req, areal32_sub_req, areal32_mul, areal32_add, areal32_sub }
+pub uninterp spec fn cx(c: CoordF32) -> real;
+pub uninterp spec fn cy(c: CoordF32) -> real;
+pub uninterp spec fn pt_coord(p: &PointF32) -> CoordF32;
+impl CentroidPoint {
+    #[verifier::external_body] pub fn x(&self) -> (r: f32) ensures f32_real(r) == cx(self.0) { unimplemented!() }
+    #[verifier::external_body] pub fn y(&self) -> (r: f32) ensures f32_real(r) == cy(self.0) { unimplemented!() }
+}
+impl PointF32 {
+    #[verifier::external_body] pub fn x(&self) -> (r: f32) ensures f32_real(r) == cx(pt_coord(self)) { unimplemented!() }
+    #[verifier::external_body] pub fn y(&self) -> (r: f32) ensures f32_real(r) == cy(pt_coord(self)) { unimplemented!() }
+}
+#[verifier::external_body] pub fn verif_unwrap_centroid(o: Option<CentroidPoint>) -> (r: CentroidPoint) requires o is Some ensures Some(r) == o { unimplemented!() }
+"""
+
+
 def build(x):
     parts, texts = [], []
     parts.append(P.numtype("Distance"))
@@ -102,6 +128,24 @@ def build(x):
     wt.body_start("    broadcast use areal, lits; proof { areal_obeys(); }")
     texts.append(wt.text)
     parts.append(wt.text + "\n")
+    # ---- the r-tree's own measure: EdgeRtreeRecord::distance_2 ----
+    parts.append(F32)
+    RF = "routee-compass/src/plugin/input/default/edge_rtree/edge_rtree_record.rs"
+    d2 = x.fn(RF, "impl PointDistance for EdgeRtreeRecord :: fn distance_2")
+    d2.rewrite(r"\A(\s*)fn ", r"\1pub fn ", 0, 1, rule="R3")
+    d2.rewrite(r"point: &Point<f32>", "point: &PointF32", 1, 1, rule="R-path")
+    d2.rewrite(r"let this_point = self\s*\.geometry\s*\.centroid\(\)\s*\.unwrap_or_else\(\|\| panic!\([^)]*\)\);", "let this_point = verif_unwrap_centroid(self.geometry.centroid());", 0, 1, rule="R-collect")
+    x.note("R-collect", "distance_2: `self.geometry.centroid().unwrap_or_else(|| panic!(..))` written verif_unwrap_centroid(self.geometry.centroid()) (precondition: the linestring is not empty -- an empty one panics in the real code)")
+    d2.name_return("r")
+    d2.add_spec("""        requires centroid_of(&self.geometry) is Some,
+        ensures
+            // C16: the measure by which the tree orders its records is the squared coordinate distance from the query point to the record's LOCATION -- the same
+            // location (the centroid of its geometry) that the tolerance is measured to
+            f32_real(r) == (cx(centroid_of(&self.geometry)->Some_0) - cx(pt_coord(point))) * (cx(centroid_of(&self.geometry)->Some_0) - cx(pt_coord(point)))
+                         + (cy(centroid_of(&self.geometry)->Some_0) - cy(pt_coord(point))) * (cy(centroid_of(&self.geometry)->Some_0) - cy(pt_coord(point))),""")
+    d2.body_start("        broadcast use areal32; proof { areal32_obeys(); }")
+    parts.append("impl EdgeRtreeRecord {\n" + d2.text + "\n}\n")
+    x.note("R3", "`impl PointDistance for EdgeRtreeRecord :: fn distance_2` written as an inherent pub fn")
     # ---- the vertex plugin's tolerance check ----
     VF = "routee-compass/src/plugin/input/default/vertex_rtree/plugin.rs"
     vt = x.fn(VF, "fn validate_tolerance")
